@@ -337,15 +337,12 @@ Proof.
   destruct (negb (ignore_cache_control h) && occ (p_cc p) m_no_store false) eqn:E6; [cbn; discriminate|].
   destruct (negb (ignore_cache_control h) && occ (p_cc p) m_private false) eqn:E7; [cbn; discriminate|].
   intros H.
-  repeat split; try reflexivity.
+  split; [reflexivity|]. split; [reflexivity|]. split; [reflexivity|]. split; [reflexivity|]. split.
   - intros Hi. rewrite Hi in *. cbn [negb andb] in *. repeat split; assumption.
-  - destruct (q_flag_auth q) eqn:Ea; [|discriminate].
-    destruct (p_cc p) as [c|]; [|cbn in H; discriminate].
-    destruct (ignore_cache_control h); [cbn in H; discriminate|reflexivity].
   - intros Ha. rewrite Ha in H.
     destruct (p_cc p) as [c|]; [|cbn in H; discriminate].
     destruct (ignore_cache_control h); [cbn in H; discriminate|].
-    exists c. split; [reflexivity|].
+    split; [reflexivity|]. exists c. split; [reflexivity|].
     destruct (m_public c); [reflexivity|].
     destruct (m_must_revalidate c); [reflexivity|].
     destruct (use_http_violations && has_no_cache_without_params c); [reflexivity|].
@@ -530,3 +527,163 @@ Definition wit_p (status : N) (ccv : list bytes) : reply :=
 Theorem authorization_negative_ttl_witness :
   two_requests wit_cf plain_hstate wit_q (wit_p 404 [d_no_cache]) 1700000000 1 = Hit.
 Proof. vm_compute. reflexivity. Qed.
+
+(* ================================================================ list reading *)
+Local Open Scope N_scope.
+
+Lemma delim3_simple c : simple_char c = true -> is_delim3 c = is_delim2 44 c.
+Proof. unfold simple_char, is_delim3, is_delim2, is_xspace. intros H. lia. Qed.
+
+Lemma ritems_fuel_simple f : forall l, simple l = true -> map fst (ritems_fuel f l) = items_fuel f 44 l.
+Proof.
+  induction f as [|f IH]; intros l Hs; [reflexivity|].
+  cbn [ritems_fuel items_fuel].
+  assert (Hd : drop_while is_delim3 l = drop_while (is_delim2 44) l).
+  { apply drop_while_ext. intros c Hin. apply delim3_simple.
+    unfold simple in Hs. rewrite forallb_forall in Hs. now apply Hs. }
+  rewrite Hd.
+  pose proof (simple_drop (is_delim2 44) l Hs) as Hs1.
+  set (l1 := drop_while (is_delim2 44) l) in *. clearbody l1.
+  pose proof (scan_simple l1 [] Hs1) as Hsc.
+  destruct (scan_item 44 false l1 []) as [item rest].
+  injection Hsc as Hitem Hrest.
+  assert (Hsr : simple rest = true) by (rewrite Hrest; now apply simple_span_snd).
+  destruct (rtrim item) as [|i0 it]; [reflexivity|].
+  cbn [map fst]. now rewrite IH.
+Qed.
+
+(* for list text without DQUOTE / NUL / line breaks, the reader sees the comma-split, OWS-trimmed, non-empty elements *)
+Theorem cc_items_is_ref l : simple l = true -> cc_items l = ref_items l.
+Proof.
+  intros H. unfold cc_items, ritems. rewrite (ritems_fuel_simple _ _ (eq_ind_r (fun x => simple x = true) H (c_str_simple l H))).
+  rewrite <- (list_items_is_ref l H). reflexivity.
+Qed.
+
+(* ---------- the loop bound of ritems is never the reason the list ends ---------- *)
+Lemma drop_while_length {A} (p : A -> bool) l : (length (drop_while p l) <= length l)%nat.
+Proof. induction l as [|c r IH]; cbn [drop_while length]; [lia|]. destruct (p c); cbn [length]; lia. Qed.
+
+Lemma scan_item_length del : forall n l, (length l <= n)%nat -> forall q acc,
+  (length (fst (scan_item del q l acc)) + length (snd (scan_item del q l acc)) = length acc + length l)%nat.
+Proof.
+  induction n as [|n IH]; intros l Hl q acc.
+  - destruct l; [|cbn in Hl; lia]. cbn [scan_item fst snd length]. rewrite rev_length. lia.
+  - destruct l as [|c r]; [cbn [scan_item fst snd length]; rewrite rev_length; lia|].
+    cbn [length] in Hl. cbn [scan_item].
+    destruct q.
+    + destruct (c =? 34); [rewrite IH by lia; cbn [length]; lia|].
+      destruct (c =? 92).
+      * destruct r as [|d r']; [cbn [fst snd length]; rewrite rev_length; cbn [length]; lia|].
+        cbn [length] in Hl. rewrite IH by lia. cbn [length]. lia.
+      * rewrite IH by lia; cbn [length]; lia.
+    + destruct (c =? 34); [rewrite IH by lia; cbn [length]; lia|].
+      destruct ((c =? del) || (c =? 44)); [cbn [fst snd length]; rewrite rev_length; lia|].
+      rewrite IH by lia; cbn [length]; lia.
+Qed.
+
+Lemma rtrim_nil_item l : rtrim l <> [] -> l <> [].
+Proof. intros H E. subst l. apply H. reflexivity. Qed.
+
+Lemma ritems_fuel_enough : forall f l k, (length l < f)%nat -> ritems_fuel (f + k) l = ritems_fuel f l.
+Proof.
+  induction f as [|f IH]; intros l k Hl; [lia|].
+  cbn [Nat.add ritems_fuel].
+  pose proof (drop_while_length is_delim3 l) as Hd.
+  set (l1 := drop_while is_delim3 l) in *. clearbody l1.
+  pose proof (scan_item_length 44 (length l1) l1 (le_n _) false []) as Hlen.
+  destruct (scan_item 44 false l1 []) as [item rest]. cbn [fst snd length] in Hlen.
+  destruct (rtrim item) as [|i0 it] eqn:Er; [reflexivity|].
+  assert (Hne : item <> []) by (apply rtrim_nil_item; rewrite Er; discriminate).
+  f_equal. apply IH. destruct item; [congruence|]. cbn [length] in Hlen. lia.
+Qed.
+
+(* more fuel never yields more items: the bound S (length l) of `ritems` is not what ends the list *)
+Theorem ritems_fuel_sufficient l k : ritems_fuel (S (length (c_str l)) + k) (c_str l) = ritems l.
+Proof.
+  unfold ritems.
+  assert (Hc : (length (c_str l) <= length l)%nat).
+  { unfold c_str. pose proof (span_parts (fun c => negb (c =? 0)) l) as Hp.
+    apply (f_equal (@length N)) in Hp. rewrite app_length in Hp. lia. }
+  rewrite (ritems_fuel_enough (S (length (c_str l))) (c_str l) k) by lia.
+  replace (S (length l)) with (S (length (c_str l)) + (length l - length (c_str l)))%nat by lia.
+  now rewrite ritems_fuel_enough by lia.
+Qed.
+
+(* ================================================================ text-level statement *)
+(* "sent with directive d": some comma-separated, OWS-trimmed, non-empty element of the combined field value is d or d=... *)
+Definition sent_with (d : bytes) (vals : list bytes) : Prop :=
+  exists item, In item (ref_items (join_values vals)) /\ is_directive d item = true.
+
+Lemma sent_with_has d vals : simple (join_values vals) = true -> sent_with d vals -> has_directive d vals.
+Proof. intros Hs [it [Hin Hd]]. exists it. split; [now rewrite cc_items_is_ref|exact Hd]. Qed.
+Lemma has_sent_with d vals : simple (join_values vals) = true -> has_directive d vals -> sent_with d vals.
+Proof. intros Hs [it [Hin Hd]]. exists it. split; [now rewrite <- cc_items_is_ref|exact Hd]. Qed.
+
+Theorem forbidden_never_hit cf h q p now gap :
+  ignore_cache_control h = false ->
+  simple (join_values (p_cc_vals p)) = true -> simple (join_values (q_cc_vals q)) = true ->
+  sent_with d_no_store (p_cc_vals p) \/ sent_with d_private (p_cc_vals p) \/ sent_with d_no_store (q_cc_vals q) ->
+  two_requests cf h q p now gap <> Hit /\
+  (q_only_if_cached q = false -> two_requests cf h q p now gap = Miss).
+Proof.
+  intros Hi Hsp Hsq H.
+  assert (E : two_requests cf h q p now gap = (if q_only_if_cached q then NotForwarded else Miss)).
+  { destruct H as [H|[H|H]].
+    - apply response_no_store_never_reused; [exact Hi|now apply sent_with_has].
+    - apply response_private_never_reused; [exact Hi|now apply sent_with_has].
+    - apply request_no_store_never_reused. now apply sent_with_has. }
+  rewrite E. split; [destruct (q_only_if_cached q); discriminate|]. intros Ho. now rewrite Ho.
+Qed.
+
+Theorem authorization_never_hit_without_permission cf h q p now gap :
+  negative_ttl cf <= 0 -> q_has_authorization q = true ->
+  simple (join_values (p_cc_vals p)) = true ->
+  ~ sent_with d_public (p_cc_vals p) -> ~ sent_with d_must_revalidate (p_cc_vals p) -> ~ sent_with d_s_maxage (p_cc_vals p) ->
+  two_requests cf h q p now gap <> Hit /\
+  (q_only_if_cached q = false ->
+   two_requests cf h q p now gap = Miss \/ two_requests cf h q p now gap = Revalidate).
+Proof.
+  intros Hn Ha Hs N1 N2 N3.
+  assert (Hnh : two_requests cf h q p now gap <> Hit).
+  { intros Hh. destruct (authorization_hit_needs_permission cf h q p now gap Hn Ha Hh) as [H|[H|H]];
+      [apply N1|apply N2|apply N3]; now apply has_sent_with. }
+  split; [exact Hnh|]. intros Ho.
+  unfold two_requests in *. rewrite Ho in *.
+  unfold second_request in *. rewrite Ho in *.
+  repeat match goal with
+         | |- context [if ?b then _ else _] => destruct b
+         end; try (now left); try (now right); congruence.
+Qed.
+
+(* the default settings the model hard-wires, re-read from src/cf.data.pre and RefreshPattern.h on every run *)
+Lemma defaults_assumed :
+  cfg_no_refresh_pattern = true /\ refresh_default_flags_clear = true /\ cfg_reload_into_ims = false /\
+  cfg_refresh_all_ims = false /\ cfg_offline_mode = false /\ cfg_vary_ignore_expire = false /\
+  cfg_no_store_miss = true /\ cfg_no_send_hit = true /\ cfg_no_cache_acl = true /\
+  (negative_ttl default_config <= 0)%Z /\ use_http_violations = true.
+Proof. repeat split; try reflexivity. vm_compute. discriminate. Qed.
+
+(* ================================================================ non-vacuity *)
+Definition ex_q (auth : bool) (ccv : list bytes) : request :=
+  {| q_method := [71;69;84]; q_cc_vals := ccv; q_pragma_vals := []; q_has_authorization := auth; q_has_userinfo := false;
+     q_ims := false |}.
+Definition ex_p (ccv : list bytes) : reply := wit_p 200 ccv.
+Definition t_max_age_3600 : bytes := [109;97;120;45;97;103;101;61;51;54;48;48].                  (* max-age=3600 *)
+Definition t_max_age_no_store : bytes := t_max_age_3600 ++ [44;32;78;111;45;83;116;111;114;101]. (* max-age=3600, No-Store *)
+Definition t_private_arg : bytes := [80;82;73;86;65;84;69;61;34;120;34].                         (* PRIVATE="x" *)
+Definition run (q : request) (p : reply) : outcome := two_requests default_config plain_hstate q p 1700000000 1.
+
+Lemma ex_plain_hit : run (ex_q false []) (ex_p [t_max_age_3600]) = Hit. Proof. vm_compute. reflexivity. Qed.
+Lemma ex_no_store_miss : run (ex_q false []) (ex_p [t_max_age_no_store]) = Miss. Proof. vm_compute. reflexivity. Qed.
+Lemma ex_private_miss : run (ex_q false []) (ex_p [t_max_age_3600; t_private_arg]) = Miss. Proof. vm_compute. reflexivity. Qed.
+Lemma ex_req_no_store_miss : run (ex_q false [d_no_store]) (ex_p [t_max_age_3600]) = Miss. Proof. vm_compute. reflexivity. Qed.
+Lemma ex_auth_miss : run (ex_q true []) (ex_p [t_max_age_3600]) = Miss. Proof. vm_compute. reflexivity. Qed.
+Lemma ex_auth_public_hit : run (ex_q true []) (ex_p [t_max_age_3600; d_public]) = Hit. Proof. vm_compute. reflexivity. Qed.
+Lemma ex_auth_no_cache_revalidate : run (ex_q true []) (ex_p [t_max_age_3600; d_no_cache]) = Revalidate.
+Proof. vm_compute. reflexivity. Qed.
+Lemma ex_sent_with : sent_with d_no_store [t_max_age_no_store] /\ simple (join_values [t_max_age_no_store]) = true.
+Proof.
+  split; [|reflexivity]. exists [78;111;45;83;116;111;114;101]. split; [vm_compute; right; left; reflexivity|reflexivity].
+Qed.
+Lemma ex_sent_with_private : sent_with d_private [t_max_age_3600; t_private_arg].
+Proof. exists t_private_arg. split; [vm_compute; right; left; reflexivity|reflexivity]. Qed.
